@@ -25,6 +25,10 @@ variable (W : WriterSafe)
 def RdataSafe : Prop :=
   ∀ c t (msg : Bytes) cur len, len ≤ 65535 → cur + len < 2^64 → Rdata.read c t msg cur len ≠ .panic
 
+/-- … which is C18's theorem about the RDATA model -/
+theorem rdataSafe : RdataSafe := fun c t msg cur len h1 h2 =>
+  C18.C18_read_no_panic c t msg cur len h1 (by unfold Rdata.USIZE_MAX; omega)
+
 theorem be16_lt (b : Bytes) (i : Nat) : be16 b i < 65536 := by
   unfold be16
   have h1 := (b.getD i 0).toNat_lt
